@@ -11,7 +11,7 @@ PRELUDE_TOKENS = ["def", "log", "(", "tag", ",", "v", ")", "do", "T", "!>", "app
                   ";", "v", "end"]
 
 LEVEL = {"or": 1, "and": 2, "not": 3, "chain": 4, "neg": 7, "in": 8, "notin": 8}
-PURE = {"lit", "var", "bin", "neg", "chain", "not", "and", "or", "in", "notin", "list", "set", "map", "call", "index", "member"}
+PURE = {"lit", "var", "src", "bin", "neg", "chain", "not", "and", "or", "in", "notin", "list", "set", "map", "call", "index", "member"}
 
 
 def level(t):
@@ -24,7 +24,7 @@ def level(t):
         if t[1][0] in ("int", "dec") and (t[1][1] < 0 or (t[1][0] == "dec" and str(t[1][1]).startswith("-"))):
             return 7
         return 9
-    if k in ("var", "list", "set", "map", "obj", "call", "pipe", "mcall", "member", "index", "indexd", "comp"):
+    if k in ("var", "src", "list", "set", "map", "obj", "call", "pipe", "mcall", "member", "index", "indexd", "comp"):
         return 9
     if k in ("def", "deffn", "defdestr", "for", "while"):
         return -1     # statement-only forms: need parentheses anywhere but in statement position
@@ -196,6 +196,10 @@ class Renderer:
             return lit_tokens(t[1])
         if k == "var":
             return [t[1]]
+        if k == "src":
+            if t[1][0] in ("int", "decimal", "string", "boolean", "pattern", "date", "list", "set", "map", "object"):
+                return ["("] + list(t[1]) + [")"]      # `x is int(...)` would be read as the type predicate
+            return list(t[1])
         if k == "bin":
             if t[1] in "+-":
                 return self.e(t[2], 5) + [t[1]] + self.e(t[3], 6)
@@ -205,6 +209,7 @@ class Renderer:
         if k == "chain":
             out = self.e(t[1][0], 5)
             for op, x in zip(t[2], t[1][1:]):
+                # `x is int(...)` would be read as the type predicate `x is int`
                 out += op.split() + self.e(x, 5)
             return out
         if k == "not":
